@@ -64,12 +64,14 @@ Definition CInv (s : cstate) : Prop := WF (insts s) /\ forall k j, In j (iget (i
 
 Lemma cstep_inv s o : CInv s -> CInv (cstep true s o).
 Proof.
-  intros [Hwf Hdue]. destruct o as [chan token key created life | dt]; cbn [cstep].
+  intros [Hwf Hdue]. destruct o as [chan token key created life | chan token key | dt]; cbn [cstep].
   - set (s1 := {| insts := _; now := now s; next_id := _ |}).
     assert (Hwf1 : WF (insts s1)).
     { subst s1. cbn [insts]. intros k j. rewrite iget_tset. destruct (N.eqb_spec k chan) as [->|]; [|apply Hwf].
       intros Hin. apply in_app_or in Hin. destruct Hin as [Hin|[<-|[]]]; [now apply Hwf | reflexivity]. }
     destruct (sweep_spec s1 Hwf1) as (H1 & H2 & _ & H4). split; [exact H1|].
+    intros k j Hin. rewrite H2. now apply H4 in Hin.
+  - destruct (sweep_spec s Hwf) as (H1 & H2 & _ & H4). split; [exact H1|].
     intros k j Hin. rewrite H2. now apply H4 in Hin.
   - set (s1 := {| insts := insts s; now := _; next_id := _ |}).
     destruct (sweep_spec s1 Hwf) as (H1 & H2 & _ & H4). split; [exact H1|].
@@ -164,11 +166,13 @@ Lemma crun_sub ops : forall s k j, In j (iget (insts (crun true s ops)) k) ->
 Proof.
   induction ops as [|o ops IH]; intros s k j H; [left; exact H|].
   cbn [crun fold_left] in H. fold (crun true (cstep true s o) ops) in H.
-  apply IH in H. destruct o as [chan token key created life | dt]; cbn [cstep installed] in *.
+  apply IH in H. destruct o as [chan token key created life | chan token key | dt]; cbn [cstep installed] in *.
   - rewrite sweep_next_id in H. cbn [next_id] in H. destruct H as [H|H]; [|right; right; exact H].
     apply sweep_sub in H. cbn [insts] in H. rewrite iget_tset in H.
     destruct (N.eqb_spec k chan) as [->|]; [|left; exact H].
     apply in_app_or in H. destruct H as [H|[<-|[]]]; [left; exact H | right; left; reflexivity].
+  - rewrite sweep_next_id in H. destruct H as [H|H]; [|right; exact H].
+    apply sweep_sub in H. left. exact H.
   - rewrite sweep_next_id in H. cbn [next_id] in H. destruct H as [H|H]; [|right; exact H].
     apply sweep_sub in H. left. exact H.
 Qed.
